@@ -3,6 +3,7 @@ package main
 import (
 	"context"
 	"fmt"
+	"io"
 	"net"
 	"runtime"
 	"strings"
@@ -286,6 +287,7 @@ func runC13(c *Ctx) {
 		}
 		// --- S6: forced interleaving — Shutdown between the started check and the deadline refresh
 		c13Forced(c, round)
+		c13AcceptRace(c, round)
 	}
 	// goroutines: everything the servers started has gone
 	time.Sleep(300 * time.Millisecond)
@@ -305,6 +307,78 @@ func runC13(c *Ctx) {
 // while it is parked. With the refresh inside the RLock section Shutdown simply waits for the reader and then
 // unblocks it; if the check and the refresh were separable the refreshed (future) deadline would survive and
 // Shutdown would hang until the read timeout.
+// sdAcceptListener: the first Accept starts Shutdown on another goroutine and hands the connection to the server
+// only after Shutdown has closed the listener — the connection is accepted but was not tracked when Shutdown ran.
+type sdAcceptListener struct {
+	net.Listener
+	srv      *dns.Server
+	once     sync.Once
+	cOnce    sync.Once
+	closed   chan struct{}
+	shutdown chan string
+}
+
+func (l *sdAcceptListener) Accept() (net.Conn, error) {
+	c, err := l.Listener.Accept()
+	if err != nil {
+		return c, err
+	}
+	l.once.Do(func() {
+		go func() { res, _ := shutdownWithin(l.srv, 0, 4*time.Second); l.shutdown <- res }()
+		select {
+		case <-l.closed:
+		case <-time.After(3 * time.Second):
+		}
+	})
+	return c, nil
+}
+
+func (l *sdAcceptListener) Close() error {
+	l.cOnce.Do(func() { close(l.closed) })
+	return l.Listener.Close()
+}
+
+// c13AcceptRace: an idle client's connection is accepted exactly while Shutdown runs; Shutdown and the serve call must
+// still return and the connection must be closed by the server.
+func c13AcceptRace(c *Ctx, round int) {
+	inner, err := net.Listen("tcp", "127.0.0.1:0")
+	if err != nil {
+		return
+	}
+	p := &srvProbe{}
+	srv := &dns.Server{Handler: p.handler(), ReadTimeout: time.Hour, WriteTimeout: time.Hour}
+	l := &sdAcceptListener{Listener: inner, srv: srv, closed: make(chan struct{}), shutdown: make(chan string, 1)}
+	srv.Listener = l
+	st := make(chan struct{})
+	srv.NotifyStartedFunc = func() { close(st) }
+	done := make(chan error, 1)
+	go func() { done <- srv.ActivateAndServe() }()
+	<-st
+	client, err := net.Dial("tcp", inner.Addr().String())
+	if err != nil {
+		shutdownWithin(srv, 0, 3*time.Second)
+		return
+	}
+	defer client.Close()
+	in := fmt.Sprintf("round=%d", round)
+	res := "shutdown did not return"
+	select {
+	case res = <-l.shutdown:
+	case <-time.After(5 * time.Second):
+	}
+	c.Pred("forced", "shutdown-returns-with-conn-accepted-meanwhile", in, res == "nil", res, "nil", true)
+	serveRes := "serve did not return"
+	select {
+	case e := <-done:
+		serveRes = fmt.Sprint(e)
+	case <-time.After(3 * time.Second):
+	}
+	c.Pred("forced", "serve-returns-nil-after-accept-race", in, serveRes == "<nil>", serveRes, "<nil>", true)
+	client.SetReadDeadline(time.Now().Add(2 * time.Second))
+	_, rerr := client.Read(make([]byte, 1))
+	c.Pred("forced", "accepted-conn-closed-after-shutdown", in, rerr == io.EOF, fmt.Sprint(rerr), "EOF", true)
+}
+
 func c13Forced(c *Ctx, round int) {
 	pc, err := net.ListenPacket("udp", "127.0.0.1:0")
 	if err != nil {
